@@ -127,6 +127,7 @@ type Worker struct {
 // Exec runs the engine once on tape tp and returns the finished run.
 func (w *Worker) Exec(tp *Tape, keepLog bool) *Run {
 	r := newRun(w.E.Prop, tp, keepLog)
+	resetProcessState()
 	cur.Store(r)
 	defer cur.Store(nil)
 	r.Guard(func() { w.E.Run(w.T, r, w.Job.Tier) })
@@ -489,4 +490,15 @@ func (w *Worker) replay() {
 	out["log"] = r.LogLines()
 	jb, _ := json.Marshal(out)
 	os.WriteFile(w.Job.Out, jb, 0o644)
+}
+
+// ExecOnce runs f as a single simulated run on the given tape (nil = the
+// all-zero tape: first runnable task, identity map order, no faults). Used by
+// reference executions in child processes.
+func ExecOnce(prop string, tape []uint32, f func(r *Run)) *Run {
+	r := newRun(prop, ReplayTape(tape), false)
+	cur.Store(r)
+	defer cur.Store(nil)
+	r.Guard(func() { f(r) })
+	return r
 }
